@@ -109,7 +109,8 @@ fn('dsplib::FIRRateConverter::process', TU_RC, serves=['C08', 'C06', 'C05'], ext
                    ('py', 'py.off == i * L'), ('ylen', 'y.len == NP * L'),
                    ('done', 'forall(lambda q, b: Implies(And(0 <= q, q < i, 0 <= b, b < L), y[q*L + b] == DOT(X, q*M + xidxs_[b], 1, bank(h_)[b], S)))'),
                    ('todo', 'forall(lambda t: Implies(And(i * L <= t, t < y.len), y[t] == 0))')]},
-       2: {'inv': [('ylen', 'y.len == NP * L'), ('py', 'py.off == i * L + k'),
+       2: {'facts': ['forall(lambda q, b: Implies(And(0 <= q, q < i, 0 <= b, b < L), And(q*L + b < i*L, q*L + b >= 0)))'],
+           'inv': [('ylen', 'y.len == NP * L'), ('py', 'py.off == i * L + k'),
                    ('done', 'forall(lambda b: Implies(And(0 <= b, b < k), y[i*L + b] == DOT(X, i*M + xidxs_[b], 1, bank(h_)[b], S)))'),
                    ('others', 'forall(lambda t: Implies(And(0 <= t, t < y.len, Or(t < i*L, t >= i*L + k)), y[t] == pre.y[t]))')]},
        3: {'facts': ['DOT_BASE(X, i*M + xidxs_[k], 1, bank(h_)[k])', 'DOT_STEP(X, i*M + xidxs_[k], 1, bank(h_)[k], j)'],
